@@ -326,6 +326,22 @@ func runJCStatus(ctx *RunCtx) *Result {
 		var ids []int64
 		lag := c.Chance(2, 3)
 		nops := 10 + c.Intn(50)
+		if i == 0 {
+			// scripted corpus case: the controller's own status write reaches the JobConfig cache
+			// only after the Job it lists is gone and a pass on the stale JobConfig has (rightly)
+			// found nothing to write: the late status-only update must still lead to a pass
+			do(sOp{Kind: "setcron", Cron: cron})
+			quiesce() // the JobConfig has been synced once: cache and API agree on an idle status
+			do(sOp{Kind: "create", ID: nextID, Owned: true, T: now, Phase: string(execution.JobQueued)})
+			ids = append(ids, nextID)
+			nextID++
+			do(sOp{Kind: "deliverjob"})
+			do(sOp{Kind: "work"})
+			do(sOp{Kind: "delete", ID: 1})
+			do(sOp{Kind: "deliverjob"})
+			do(sOp{Kind: "work"})
+			nops = 0
+		}
 		for k := 0; k < nops; k++ {
 			now += int64(c.Intn(5))
 			switch r := c.Intn(100); {
